@@ -3,7 +3,7 @@
 //! silent hops on paths of length <= 5) through real executions (E1 over E2).
 
 use crate::c01::{self, GtIndex};
-use crate::drive::{self, all_cells, Cell, Ports, RunOutcome, TraceParams};
+use crate::drive::{self, all_cells, Cell, RunOutcome, TraceParams};
 use crate::mc::{self, Chooser};
 use crate::report::{Args, Finding, Report, Tier};
 use crate::simnet::{Hop, HopKind, Menu, Proto, Quote, Target, Topo};
